@@ -58,6 +58,17 @@ def concretise(d, k):
         parts.append((key[p], vals[k % len(vals)]))
     if d["extra"] == "unknownparam":
         parts.append((["foo", "cmd", "dep", "Name"][k % 4], "1"))
+    if (d["ctor"] == "run_experiment" and d["extra"] == "none" and d["name"] in ("valid", "badgrammar", "wrongtype")
+            and d["run"] != "absent" and k % 4 == 3):
+        # the same definition written as an instance of run_experiment_group() (documented to be exactly this run_experiment
+        # call, C19): `experiments` may be any iterable, also a one-shot one; a well-formed instance comes first
+        pd = dict(parts)
+        ip = ["name=%s" % pd["name"]] + ["%s=%s" % (q, pd[q]) for q in ("args", "options", "parallelizable") if q in pd]
+        lst = "[ExperimentInstance(name='w0'), ExperimentInstance(%s)]" % ", ".join(ip)
+        container = [lst, "(e for e in %s)" % lst, "iter(%s)" % lst, "tuple(%s)" % lst][(k // 4) % 4]
+        gp = ["name='grp'", "run=%s" % pd["run"], "experiments=%s" % container] + (["deps=%s" % pd["deps"]] if "deps" in pd else [])
+        src = HELPERS + "run_experiment_group(%s)\n" % ", ".join(gp)
+        return src, ("//:t" if d["name"] == "valid" else "//:ok")
     if d["extra"] == "positional" and parts:
         call = "%s(%s)" % (d["ctor"], ", ".join([parts[0][1]] + ["%s=%s" % p for p in parts[1:]]))
     elif d["extra"] == "positional":
